@@ -5,7 +5,9 @@ Spec: spec/SkyGeom.tla; MC: mc/MC_SkyGeom; Trace: trace/Trace_SkyGeom.
 spec -> code : every case TLC enumerates (stripe table rows, exact anchors of the rotation for every
                stripe in both directions, exact axis images of angles <-> vectors, exact-distance families
                in the three unit conventions) is replayed into the real functions and compared with the
-               value TLC computed.
+               value TLC computed.  The anchors common to all stripes are ONE array-valued coordinate object
+               handed to every stripe's transform in turn, and every object is transformed twice (a transform
+               must neither depend on nor alter what the caller's object went through before).
 code -> spec : seeded random / adversarial probes of the real functions; per probe the harness records
                class attributes and measured discrepancies as scaled integers; Trace_SkyGeom decides which
                laws each record triggers, with which tolerance, whether they hold, and whether every law
@@ -140,6 +142,53 @@ def to_munu(stripe, ra, dec):
         return np.atleast_1d(c.mu.deg).astype(float), np.atleast_1d(c.nu.deg).astype(float)
 
 
+# ---- coordinate OBJECTS that are handed to several transforms (caller-object laws) -------------
+def make_icrs(ra, dec, which='skycoord'):
+    """an ICRS coordinate object (SkyCoord or bare frame); array-valued unless ra is a float"""
+    import astropy.units as u
+    from astropy.coordinates import ICRS, SkyCoord
+    ra = np.array(ra, dtype=float)
+    dec = np.array(dec, dtype=float)
+    if which == 'frame':
+        return ICRS(ra=ra * u.deg, dec=dec * u.deg)
+    return SkyCoord(ra=ra * u.deg, dec=dec * u.deg, frame='icrs')
+
+
+def make_munu(stripe, mu, nu, which='skycoord'):
+    import astropy.units as u
+    from astropy.coordinates import SkyCoord
+    from pydl.pydlutils.coord import SDSSMuNu
+    mu = np.array(mu, dtype=float)
+    nu = np.array(nu, dtype=float)
+    if which == 'frame':
+        return SDSSMuNu(mu=mu * u.deg, nu=nu * u.deg, stripe=stripe)
+    return SkyCoord(mu=mu * u.deg, nu=nu * u.deg, frame=SDSSMuNu(stripe=stripe))
+
+
+def coord_values(obj):
+    """copies of the two coordinate arrays (degrees) the object currently holds"""
+    if hasattr(obj, 'mu'):
+        return (np.array(obj.mu.deg, dtype=float, copy=True).reshape(-1), np.array(obj.nu.deg, dtype=float, copy=True).reshape(-1))
+    return (np.array(obj.ra.deg, dtype=float, copy=True).reshape(-1), np.array(obj.dec.deg, dtype=float, copy=True).reshape(-1))
+
+
+def coord_bytes(obj):
+    a, b = coord_values(obj)
+    return a.tobytes() + b.tobytes()
+
+
+def tr_munu(obj, stripe):
+    from pydl.pydlutils.coord import SDSSMuNu
+    with np.errstate(all='ignore'):
+        return obj.transform_to(SDSSMuNu(stripe=stripe))
+
+
+def tr_icrs(obj):
+    from astropy.coordinates import ICRS
+    with np.errstate(all='ignore'):
+        return obj.transform_to(ICRS())
+
+
 def a2x(a, latitude):
     from pydl.pydlutils.mangle import angles_to_x
     with np.errstate(all='ignore'):
@@ -182,12 +231,23 @@ def replay_stripe(c, exp):
     return good, obs, None
 
 
-def replay_anchor_group(stripe, direction, group):
-    """group: list of (c, exp) of one stripe and direction; one vectorised transform."""
+def replay_anchor_group(stripe, direction, group, cache=None):
+    """group: list of (c, exp) of one stripe and direction; one vectorised transform of ONE array-valued
+    coordinate object.  Objects are cached by their coordinates: the (ra, dec) anchors common to all stripes
+    are one ICRS object handed to the transform of every stripe in turn; every object is transformed twice
+    and the second result is the one compared (a transform must not depend on what was done before)."""
     lon = [e['src']['lon'] / 10.0 for _, e in group]
     lat = [e['src']['lat'] / 10.0 for _, e in group]
+    cache = {} if cache is None else cache
+    key = (direction, None if direction == 'inv' else stripe, tuple(lon), tuple(lat))
     try:
-        glon, glat = (to_icrs if direction == 'fwd' else to_munu)(stripe, lon, lat)
+        if key not in cache:
+            cache[key] = make_munu(stripe, lon, lat) if direction == 'fwd' else make_icrs(lon, lat)
+        obj = cache[key]
+        for _ in range(2):
+            res = tr_icrs(obj) if direction == 'fwd' else tr_munu(obj, stripe)
+        glon, glat = coord_values(res)
+        now = coord_values(obj)
     except Exception as ex:
         return [(False, {'exc': repr(ex)}, None) for _ in group]
     elon = [e['dst']['lon'] / 10.0 for _, e in group]
@@ -197,8 +257,11 @@ def replay_anchor_group(stripe, direction, group):
     for j, (c, e) in enumerate(group):
         isnan = bool(np.isnan(glon[j]) or np.isnan(glat[j]))
         d = CAP if isnan else ndeg(sep[j])
-        obs = {'lon': float(glon[j]), 'lat': float(glat[j]), 'disc_ndeg': d, 'nan': isnan}
-        out.append((d <= e['tol'] and not isnan, obs, 'D-C18-2' if (isnan and e['polar']) else None))
+        kept = bool(now[0][j] == lon[j] and now[1][j] == lat[j])
+        obs = {'lon': float(glon[j]), 'lat': float(glat[j]), 'disc_ndeg': d, 'nan': isnan, 'caller_object_unchanged': kept}
+        if not kept:
+            obs['caller_object_now'] = [float(now[0][j]), float(now[1][j])]
+        out.append((d <= e['tol'] and not isnan and kept, obs, 'D-C18-2' if (isnan and e['polar'] and kept) else None))
     return out
 
 
@@ -282,10 +345,12 @@ def describe(c, exp, obs):
                 (a[0], a[1], a[2], a[3], c['units'], obs.get('gcirc'), obs.get('expected'), c['fam'],
                  ','.join(obs.get('fails', [])) or obs.get('exc')))
     if k == 'anchor':
-        return ('stripe %d %s: (%s, %s) deg -> observed (%r, %r), specified (%s, %s), off by %s ndeg (tol %s)' %
+        return ('stripe %d %s: (%s, %s) deg -> observed (%r, %r), specified (%s, %s), off by %s ndeg (tol %s)%s' %
                 (c['stripe'], 'mu,nu->ra,dec' if c['dir'] == 'fwd' else 'ra,dec->mu,nu', exp['src']['lon'] / 10.0,
                  exp['src']['lat'] / 10.0, obs.get('lon'), obs.get('lat'), exp['dst']['lon'] / 10.0, exp['dst']['lat'] / 10.0,
-                 obs.get('disc_ndeg', obs.get('exc')), exp['tol']))
+                 obs.get('disc_ndeg', obs.get('exc')), exp['tol'],
+                 '' if obs.get('caller_object_unchanged', True) else
+                 '; the coordinate object handed in was changed by the call: now %s' % (obs.get('caller_object_now'),)))
     if k == 'stripe':
         return 'stripe %d: specified eta %s incl %s node %s, observed %s' % (
             c['stripe'], exp['eta10'] / 10.0, exp['incl10'] / 10.0, exp['node10'] / 10.0, obs)
@@ -318,9 +383,21 @@ def replay_cases(ctx, cases, geo):
             results.append((c, exp) + replay_dist(c, exp))
         else:
             raise core.MachineryError('unknown case kind %r' % (k,))
+    # anchors whose source point is the same for every stripe go first, in a fixed order, so that
+    # their coordinate object is shared by all stripes; the stripe-specific ones follow in a second object
+    keys = {}
+    for (s, d), grp in groups.items():
+        for c, _ in grp:
+            keys.setdefault((d, tlc_key(c['src'])), set()).add(s)
+    cache = {}
     for (s, d), grp in sorted(groups.items()):
-        for (c, exp), res in zip(grp, replay_anchor_group(s, d, grp)):
-            results.append((c, exp) + res)
+        grp.sort(key=lambda ce: tlc_key(ce[0]['src']))
+        common = [ce for ce in grp if len(keys[(d, tlc_key(ce[0]['src']))]) == len({k[0] for k in groups})]
+        own = [ce for ce in grp if len(keys[(d, tlc_key(ce[0]['src']))]) != len({k[0] for k in groups})]
+        for part in (common, own):
+            if part:
+                for (c, exp), res in zip(part, replay_anchor_group(s, d, part, cache)):
+                    results.append((c, exp) + res)
     n = 0
     for c, exp, good, obs, dev in results:
         n += 1
@@ -457,19 +534,31 @@ def conventions(p):
     return {0: r, 1: h, 2: d}, hexact
 
 
-def gc_records(pairs):
+def gc_records(pairs, nchunk=1):
     """Run gcirc on every pair in the three conventions (vectorised per convention, both argument orders)
     and build the records."""
     n = len(pairs)
     conv = [conventions(p) for p in pairs]
     res, rev, ora = {}, {}, {}
+    unch = []
+    bounds = [round(k * n / nchunk) for k in range(nchunk + 1)]
     for u in UNITS:
         cols = [np.array([cv[0][u][j] for cv in conv], dtype=np.float64) for j in range(4)]
-        res[u] = np.asarray(call_gcirc(cols[0], cols[1], cols[2], cols[3], u), dtype=np.float64)
-        rev[u] = np.asarray(call_gcirc(cols[2], cols[3], cols[0], cols[1], u), dtype=np.float64)
+        res[u] = np.empty(n)
+        rev[u] = np.empty(n)
+        for lo, hi in zip(bounds[:-1], bounds[1:]):
+            if hi == lo:
+                continue
+            for order, dest in (((0, 1, 2, 3), res), ((2, 3, 0, 1), rev)):
+                args = [cols[j][lo:hi].copy() for j in order]
+                before = [a.tobytes() for a in args]
+                out = np.asarray(call_gcirc(args[0], args[1], args[2], args[3], u), dtype=np.float64)
+                if out.shape != (hi - lo,):
+                    raise core.MachineryError('gcirc returned shape %r for %d pairs' % (out.shape, hi - lo))
+                dest[u][lo:hi] = out
+                unch.append({'kind': 'unch', 'fn': 'gcirc', 'array': True, 'use': 0,
+                             'same': before == [a.tobytes() for a in args]})
         ora[u] = o_dist(cols[0], cols[1], cols[2], cols[3], u)           # radians
-        if res[u].shape != (n,):
-            raise core.MachineryError('gcirc returned shape %r for %d pairs' % (res[u].shape, n))
     natu = {'rad': 0, 'hour': 1, 'deg': 2}
     recs = []
     for j, p in enumerate(pairs):
@@ -502,7 +591,7 @@ def gc_records(pairs):
         rec['uhd'] = ppb(outs[1], outs[2]) if outs[2] >= outs[1] else ppb(outs[2], outs[1])
         rec['urd'] = ppb(outs[0], outs[2]) if outs[2] >= outs[0] else ppb(outs[2], outs[0])
         recs.append(rec)
-    return recs, conv, res
+    return recs, conv, res, unch
 
 
 def scaled_floor(x):
@@ -550,7 +639,7 @@ def munu_records(rng, geo, npts):
             isnan = bool(np.isnan([mu[j], nu[j], ra2[j], dec2[j]]).any())
             polar = bool(abs(dec[j]) > 89.9 or (not np.isnan(nu[j]) and abs(nu[j]) > 89.9)
                          or min(float(deg_sep(ra[j], dec[j], pole[0], pole[1])), float(deg_sep(ra[j], dec[j], pole[0] + 180, -pole[1]))) < 0.1)
-            recs.append({'kind': 'rt', 'dir': 'icrs', 'stripe': s, 'nan': isnan, 'polar': polar,
+            recs.append({'kind': 'rt', 'dir': 'icrs', 'stripe': s, 'array': True, 'use': 0, 'nan': isnan, 'polar': polar,
                          'disc': CAP if isnan else ndeg(sep[j])})
             info.append({'probe': 'rt-icrs', 'stripe': s, 'ra': float(ra[j]), 'dec': float(dec[j]), 'mu': float(mu[j]),
                          'nu': float(nu[j]), 'ra_back': float(ra2[j]), 'dec_back': float(dec2[j])})
@@ -578,7 +667,7 @@ def munu_records(rng, geo, npts):
         for j in range(len(m_in)):
             isnan = bool(np.isnan([r3[j], d3[j], m4[j], n4[j]]).any())
             polar = bool(abs(n_in[j]) > 89.9 or (not np.isnan(d3[j]) and abs(d3[j]) > 89.9))
-            recs.append({'kind': 'rt', 'dir': 'munu', 'stripe': s, 'nan': isnan, 'polar': polar,
+            recs.append({'kind': 'rt', 'dir': 'munu', 'stripe': s, 'array': True, 'use': 0, 'nan': isnan, 'polar': polar,
                          'disc': CAP if isnan else ndeg(sep[j])})
             info.append({'probe': 'rt-munu', 'stripe': s, 'mu': float(m_in[j]), 'nu': float(n_in[j]), 'ra': float(r3[j]),
                          'dec': float(d3[j]), 'mu_back': float(m4[j]), 'nu_back': float(n4[j])})
@@ -617,8 +706,23 @@ def _rt_polar(recs, k, j):
     return bool(recs[base + j]['polar'] or recs[base + j + 1]['polar'])
 
 
-def vec_records(rng, n):
+def vec_records(rng, n, nchunk=1):
     recs, info = [], []
+    unch = []
+
+    def chunked(fn, name, arr, latitude):
+        """fn on nchunk slices of arr (each its own array); records whether the slice handed in is bit-identical
+        after the call"""
+        bounds = [round(k * len(arr) / nchunk) for k in range(nchunk + 1)]
+        outs = []
+        for lo, hi in zip(bounds[:-1], bounds[1:]):
+            if hi > lo:
+                part = np.array(arr[lo:hi], dtype=float, copy=True)
+                before = part.tobytes()
+                outs.append(fn(part, latitude))
+                unch.append({'kind': 'unch', 'fn': name, 'array': True, 'use': 0, 'same': part.tobytes() == before})
+        return np.concatenate(outs, 0)
+
     for latitude in (False, True):
         lon = [rng.uniform(0, 360) for _ in range(n)] + [0.0, 90.0, 180.0, 270.0, 359.99999999, 360.0, -10.0, 370.0, 45.0, 123.0]
         lat = [math.degrees(math.asin(rng.uniform(-1, 1))) for _ in range(n)] + [0.0, 0.0, 45.0, -45.0, 10.0, -10.0, 20.0, 30.0, 90.0, -90.0]
@@ -628,8 +732,8 @@ def vec_records(rng, n):
         lon, lat = np.array(lon), np.array(lat)
         second = lat if latitude else 90.0 - lat
         a = np.stack([lon, second], 1)
-        x = a2x(a, latitude)
-        b = x2a(x, latitude)
+        x = chunked(a2x, 'angles_to_x', a, latitude)
+        b = chunked(x2a, 'x_to_angles', x, latitude)
         if x.shape != (len(lon), 3) or b.shape != (len(lon), 2):
             raise core.MachineryError('angles_to_x / x_to_angles returned shapes %r %r' % (x.shape, b.shape))
         latb = b[:, 1] if latitude else 90.0 - b[:, 1]
@@ -653,8 +757,8 @@ def vec_records(rng, n):
             v.append([rng.gauss(0, sc), rng.gauss(0, sc), rng.choice([-1.0, 1.0])])
         v = np.array(v, dtype=np.float64)
         v = v / np.sqrt((v ** 2).sum(1))[:, None]
-        a = x2a(v, latitude)
-        w = a2x(a, latitude)
+        a = chunked(x2a, 'x_to_angles', v, latitude)
+        w = chunked(a2x, 'angles_to_x', a, latitude)
         if a.shape != (len(v), 2) or w.shape != (len(v), 3):
             raise core.MachineryError('x_to_angles / angles_to_x returned shapes %r %r' % (a.shape, w.shape))
         vl = np.asarray(v, dtype=L)
@@ -670,6 +774,82 @@ def vec_records(rng, n):
                          'norm': CAP if isnan else scaled(nrm[j], L(1e-12))})
             info.append({'probe': 'x2a2x', 'latitude': latitude, 'x': [float(t) for t in v[j]],
                          'angles': [float(t) for t in a[j]], 'back': [float(t) for t in w[j]]})
+    return recs + unch, info + [{'probe': 'unchanged-input', 'fn': r['fn']} for r in unch]
+
+
+def icrs_sequence(which, ra0, dec0, seq):
+    """ONE ICRS coordinate object (array-valued when ra0 is a list) handed to the transforms of the stripes in
+    `seq` one after the other; after every forward transform the result is taken back to ICRS and compared
+    with the ORIGINAL coordinates.  Yields (record, step) for: the round trip ('rt'), the object handed to
+    radec_to_munu unchanged ('unch'), the intermediate (mu, nu) object handed to munu_to_radec unchanged."""
+    array = isinstance(ra0, (list, tuple, np.ndarray))
+    obj = make_icrs(ra0, dec0, which)
+    r0 = np.atleast_1d(np.array(ra0, dtype=float))
+    d0 = np.atleast_1d(np.array(dec0, dtype=float))
+    for use, s in enumerate(seq):
+        before = coord_bytes(obj)
+        m = tr_munu(obj, s)
+        yield ({'kind': 'unch', 'fn': 'radec_to_munu', 'array': array, 'use': use, 'same': coord_bytes(obj) == before}, use)
+        mu, nu = coord_values(m)
+        before = coord_bytes(m)
+        b = tr_icrs(m)
+        yield ({'kind': 'unch', 'fn': 'munu_to_radec', 'array': array, 'use': 0, 'same': coord_bytes(m) == before}, use)
+        ra2, dec2 = coord_values(b)
+        isnan = bool(np.isnan([mu, nu, ra2, dec2]).any())
+        polar = bool((np.abs(d0) > 89.9).any() or (np.abs(nu[~np.isnan(nu)]) > 89.9).any())
+        disc = CAP if isnan else max(ndeg(x) for x in np.atleast_1d(deg_sep(r0, d0, ra2, dec2)))
+        yield ({'kind': 'rt', 'dir': 'icrs', 'stripe': s, 'array': array, 'use': use, 'nan': isnan, 'polar': polar,
+                'disc': disc}, use)
+
+
+def munu_sequence(which, stripe, mu0, nu0, times):
+    """ONE (mu, nu) coordinate object of a stripe handed `times` times to munu_to_radec, each result taken back
+    to (mu, nu) and compared with the ORIGINAL coordinates."""
+    array = isinstance(mu0, (list, tuple, np.ndarray))
+    obj = make_munu(stripe, mu0, nu0, which)
+    m0 = np.atleast_1d(np.array(mu0, dtype=float))
+    n0 = np.atleast_1d(np.array(nu0, dtype=float))
+    for use in range(times):
+        before = coord_bytes(obj)
+        c = tr_icrs(obj)
+        yield ({'kind': 'unch', 'fn': 'munu_to_radec', 'array': array, 'use': use, 'same': coord_bytes(obj) == before}, use)
+        ra, dec = coord_values(c)
+        before = coord_bytes(c)
+        m = tr_munu(c, stripe)
+        yield ({'kind': 'unch', 'fn': 'radec_to_munu', 'array': array, 'use': 0, 'same': coord_bytes(c) == before}, use)
+        mu, nu = coord_values(m)
+        isnan = bool(np.isnan([ra, dec, mu, nu]).any())
+        polar = bool((np.abs(n0) > 89.9).any() or (np.abs(dec[~np.isnan(dec)]) > 89.9).any())
+        disc = CAP if isnan else max(ndeg(x) for x in np.atleast_1d(deg_sep(m0, n0, mu, nu)))
+        yield ({'kind': 'rt', 'dir': 'munu', 'stripe': stripe, 'array': array, 'use': use, 'nan': isnan, 'polar': polar,
+                'disc': disc}, use)
+
+
+def reuse_records(rng, npts, times):
+    """caller-object probes: array-valued and scalar coordinate objects that go through several transforms"""
+    recs, info = [], []
+
+    def sphere(k):
+        return ([rng.uniform(0, 360) for _ in range(k)], [math.degrees(math.asin(rng.uniform(-0.98, 0.98))) for _ in range(k)])
+
+    for which in ('skycoord', 'frame'):
+        for array in (True, False):
+            ra0, dec0 = sphere(npts)
+            if not array:
+                ra0, dec0 = ra0[0], dec0[0]
+            seq = [s for s in range(91) for _ in range(2)]        # forward + inverse, forward again + inverse, next stripe
+            rng.shuffle(seq)
+            for rec, step in icrs_sequence(which, ra0, dec0, seq):
+                recs.append(rec)
+                info.append({'probe': 'reuse-icrs', 'which': which, 'ra': ra0, 'dec': dec0, 'seq': seq[:step + 1]})
+    for s in range(91):
+        for which, array in (('skycoord', True), ('frame', True), ('skycoord', False)) if s % 3 == 0 else (('skycoord', True), ('frame', False)):
+            mu0, nu0 = sphere(npts)
+            if not array:
+                mu0, nu0 = mu0[0], nu0[0]
+            for rec, step in munu_sequence(which, s, mu0, nu0, times):
+                recs.append(rec)
+                info.append({'probe': 'reuse-munu', 'which': which, 'stripe': s, 'mu': mu0, 'nu': nu0, 'times': step + 1})
     return recs, info
 
 
@@ -717,7 +897,10 @@ def run(ctx):
     ctx.rule = ('every state of MC_SkyGeom is one case (stripe row | anchor of the rotation: stripe x direction x point | axis '
                 'point of angles<->vectors | exact-distance pair x unit convention) replayed into pydl; non-trivial = distance '
                 'cases with non-zero separation, anchors that move or belong to an inclined stripe; recorded probes = seeded '
-                'random/adversarial calls judged law by law by Trace_SkyGeom, counted per (law, class)')
+                'random/adversarial calls judged law by law by Trace_SkyGeom, counted per (law, class); coordinate objects '
+                '(array-valued and scalar, SkyCoord and bare frames) are reused across stripes / repeated transforms and '
+                'compared with the coordinates they were built from; CallerObjectUnchanged = argument arrays bit-identical '
+                'after the call')
     ctx.assumptions = [
         'IEEE-754 doubles; numpy longdouble is the x87 80-bit format (64-bit mantissa) - checked at start',
         'exact families use coordinates b/8 + m/2^k that are exactly representable, so the separation TLC computes is the '
@@ -738,10 +921,12 @@ def run(ctx):
     # ---- code -> spec ------------------------------------------------------------------------------
     rng = random.Random(ctx.seed)
     pairs = gen_pairs(rng, 70 if ctx.quick else 1200, 40 if ctx.quick else 600)
-    grecs, conv, res = gc_records(pairs)
+    grecs, conv, res, gunch = gc_records(pairs, 4 if ctx.quick else 20)
     srecs = stripe_records()
     mrecs, minfo = munu_records(rng, geo, 6 if ctx.quick else 50)
-    vrecs, vinfo = vec_records(rng, 40 if ctx.quick else 600)
+    vrecs, vinfo = vec_records(rng, 40 if ctx.quick else 600, 3 if ctx.quick else 26)
+    urecs, uinfo = reuse_records(rng, 5 if ctx.quick else 12, 3 if ctx.quick else 4)
+    mrecs, minfo = mrecs + urecs + gunch, minfo + uinfo + [{'probe': 'unchanged-input', 'fn': 'gcirc'} for _ in gunch]
     recs = grecs + srecs + mrecs + vrecs
     verdict = judge(ctx, recs, 10 if ctx.quick else 100, ctx.tier)
     ok0, why0, _, _ = verdict[0]
@@ -766,13 +951,13 @@ def run(ctx):
                 ctx.violation({'what': 'stripe table row rejected by Trace_SkyGeom (%s): %s' % (why.strip(), rec), 'record': rec})
         elif i <= len(grecs) + len(srecs) + len(mrecs):
             inf = minfo[i - 1 - len(grecs) - len(srecs)]
-            ctx.nontriv((rec['kind'], rec['stripe'], i))
+            ctx.nontriv((rec['kind'], rec.get('stripe', rec.get('fn')), i))
             if not ok:
-                ctx.violation({'what': 'SDSSMuNu probe rejected by Trace_SkyGeom (%s): %s disc=%s ndeg nan=%s polar=%s' % (
-                    why.strip(), inf, rec['disc'], rec['nan'], rec['polar']), 'record': rec, 'probe': inf}, finding=dev or None)
+                ctx.violation({'what': 'probe rejected by Trace_SkyGeom (%s): %s record=%s' % (why.strip(), inf, rec),
+                               'record': rec, 'probe': inf}, finding=dev or None)
         else:
             inf = vinfo[i - 1 - len(grecs) - len(srecs) - len(mrecs)]
-            ctx.nontriv(('vec', rec['dir'], rec['latitude'], i))
+            ctx.nontriv(('vec', rec.get('dir', rec.get('fn')), rec.get('latitude'), i))
             if not ok:
                 ctx.violation({'what': 'angles<->vectors probe rejected by Trace_SkyGeom (%s): %s %s' % (why.strip(), inf, rec),
                                'record': rec, 'probe': inf})
@@ -808,7 +993,7 @@ def replay(ctx, case):
             ctx.violation(case, finding=dev)
         return
     if 'pair' in case:
-        recs, conv, res = gc_records([case['pair']])
+        recs, conv, res, _ = gc_records([case['pair']])
         what = lambda why: gc_what(case['pair'], conv[0], res, 0, why)
     else:
         inf = case['probe']
@@ -822,9 +1007,31 @@ def replay(ctx, case):
 
 
 def _reprobe(inf, old):
-    """re-run one SDSSMuNu / angles<->vectors probe from its recorded inputs"""
+    """re-run one SDSSMuNu / angles<->vectors / caller-object probe from its recorded inputs"""
     k = inf['probe']
     rec = dict(old)
+    if k in ('reuse-icrs', 'reuse-munu'):
+        gen = (icrs_sequence(inf['which'], inf['ra'], inf['dec'], inf['seq']) if k == 'reuse-icrs' else
+               munu_sequence(inf['which'], inf['stripe'], inf['mu'], inf['nu'], inf['times']))
+        last = None
+        for r, _ in gen:          # the whole history of the object; the last record of the same sort is the probe
+            if r['kind'] == old['kind'] and r.get('fn') == old.get('fn'):
+                last = r
+        return last
+    if k == 'unchanged-input':
+        # a representative call of the function with an array argument that is inspected afterwards
+        a = np.array([[10.0, 20.0], [200.0, 100.0], [359.0, 179.0]])
+        before = a.tobytes()
+        if inf['fn'] == 'gcirc':
+            call_gcirc(a[:, 0], a[:, 1] - 90.0, a[:, 0] + 1.0, a[:, 1] - 90.0, 2)
+        elif inf['fn'] == 'angles_to_x':
+            a2x(a, False)
+        else:
+            a = a2x(a, False)
+            before = a.tobytes()
+            x2a(a, False)
+        rec.update(same=a.tobytes() == before)
+        return rec
     if k == 'rt-icrs':
         mu, nu = to_munu(inf['stripe'], [inf['ra']], [inf['dec']])
         ra, dec = to_icrs(inf['stripe'], mu, nu)
